@@ -826,15 +826,15 @@ def eval_turn(case, rec, logs, state):
             simultaneous = nconds >= 2
             if actual[1] not in allowed:
                 if None in allowed and len(allowed) == 1:
-                    sig = "turn:spurious-yield:%s@%s" % (_cls(actual[1]), stage)
+                    sig = "turn:spurious-yield:%s" % _cls(actual[1])
                 else:
-                    sig = "turn:expected-%s:got-%s@%s" % (_allowed_cls(allowed), _cls(actual[1]), stage)
+                    sig = "turn:expected-%s:got-%s" % (_allowed_cls(allowed), _cls(actual[1]))
                 out.append((sig, "boundary %s consumed=%s: reason %r, allowed %s; %s" % (
                     stage, json.dumps(consumed, sort_keys=True), actual[1], sorted(map(str, allowed)), desc)))
             stop_at = i
             break
         if None not in allowed:
-            out.append(("turn:missed-yield:%s@%s" % (_allowed_cls(allowed), stage),
+            out.append(("turn:missed-yield:%s" % _allowed_cls(allowed),
                         "boundary %s consumed=%s should yield with %s but the turn went on (actual yield %s); %s" % (
                             stage, json.dumps(consumed, sort_keys=True), sorted(map(str, allowed)), actual, desc)))
             break
@@ -852,10 +852,6 @@ def eval_turn(case, rec, logs, state):
                 if logs.get(fn):
                     out.append(("turn:later-record-present:%s" % fn, "yielded at %s but %s has %d record(s); %s" % (
                         STAGES[stop_at], fn, len(logs[fn]), desc)))
-        for s in STAGES[: stop_at + 1]:
-            if s != "T3" and len(logs.get(STAGE_FILE[s], [])) != 1:
-                out.append(("turn:earlier-record-missing:%s" % STAGE_FILE[s], "yielded at %s, %s has %d record(s); %s" % (
-                    STAGES[stop_at], STAGE_FILE[s], len(logs.get(STAGE_FILE[s], [])), desc)))
     outcome = ("turn", actual[0] if actual else "-", actual[1] if actual else "-")
     nontrivial = bool(actual) and (simultaneous or clamped)
     return out, outcome, nontrivial
